@@ -120,11 +120,14 @@ Record tstate := TState {
   t_pending : list str;              (* names unlocked by name over IPC since the last probe *)
   t_mem : list (str * (Z * Z));      (* C13: per lock name, the size of the lock object and the instant of the last
                                         observed operation that reached it (one entry per name) *)
+  t_sids : list str;                 (* FRESH: every session id a connection was given so far (restarts included) *)
+  t_keys : list str;                 (* FRESH: every key a grant carried so far *)
   t_fail : list (nat * string)       (* (event index, tag) of failed checks, newest first *)
 }.
-#[global] Instance eta_tstate : Settable _ := settable! TState <t_holds; t_waiters; t_now; t_pending; t_mem; t_fail>.
+#[global] Instance eta_tstate : Settable _ :=
+  settable! TState <t_holds; t_waiters; t_now; t_pending; t_mem; t_sids; t_keys; t_fail>.
 
-Definition t_init : tstate := TState [] [] 0 [] [] [].
+Definition t_init : tstate := TState [] [] 0 [] [] [] [] [].
 
 (** C13: what the oracle remembers about lock objects. An operation that reaches the lock object of a name
     (a Lock/TryLock that is granted, parked or refused as busy; an Unlock of a key of that name that succeeds or
@@ -189,7 +192,10 @@ Definition t_waiter_done (cfg : config) (i : nat) (wid : nat) (at_ : Z) (r : res
           let t4 := flag i "C01:grant-over-capacity"
                       (count_name (tw_name w) t0
                        - Z.of_nat (length (List.filter (λ n, bool_decide (n = tw_name w)) (t_pending t0))) <? tw_size w) t3 in
-          t4 <| t_holds := t_holds t4 ++ [Hold (tw_name w) key (tw_size w) (tw_sid w) (lease at_ (tw_lt w))] |>
+          (* FRESH: the keys the server draws are new (the properties assume uuid.NewString) *)
+          let t5 := flag i "FRESH:key-reused" (negb (bool_decide (key ∈ t_keys t4))) t4 in
+          t5 <| t_holds := t_holds t5 ++ [Hold (tw_name w) key (tw_size w) (tw_sid w) (lease at_ (tw_lt w))] |>
+             <| t_keys := key :: t_keys t5 |>
       | RLock false _ e =>
           let dl := match tw_wt w with Some v => if 0 <? v then Some (tw_issued w + v * second) else None | None => None end in
           match e with
@@ -251,7 +257,9 @@ Definition t_acquire (cfg : config) (i : nat) (blocking : bool) (wid : nat) (sid
           | RLock true key _ =>
               let t := flag i "C13:collected-before-min-idle" mem_ok t in
               let t := flag i "C01:grant-over-capacity" (count_name name t <? sz) t in
+              let t := flag i "FRESH:key-reused" (negb (bool_decide (key ∈ t_keys t))) t in
               t <| t_holds := t_holds t ++ [Hold name key sz (default [] sid) (lease (t_now t) lt)] |>
+                <| t_keys := key :: t_keys t |>
           | RLock false _ None =>
               let t := flag i "C13:collected-before-min-idle" mem_ok t in
               flag i "C02:free-lock-reported-busy" (negb free && negb blocking) t
@@ -307,7 +315,12 @@ Definition t_probe (cfg : config) (i : nat) (outs : list out) (t : tstate) : tst
 
 Definition track_step0 (cfg : config) (i : nat) (ev : event) (outs : list out) (t : tstate) : tstate :=
   match ev with
-  | EConnect _ => t
+  | EConnect sid =>
+      (* FRESH: the id given to a new connection is new: not given before, not the id of a session whose holds the
+         oracle knows (restored ones included), not the id under which a call is parked *)
+      let seen := bool_decide (sid ∈ t_sids t) || bool_decide (sid ∈ map h_sid (t_holds t))
+                  || bool_decide (sid ∈ map tw_sid (t_waiters t)) in
+      flag i "FRESH:session-id-reused" (negb seen) t <| t_sids := sid :: t_sids t |>
   | EDisconnect sid =>
       (* the session's holds end first (unless no-clear); the capacity they free may be handed to parked calls *)
       let t1 := if c_noclear cfg then t else t <| t_holds := List.filter (λ h, negb (bool_decide (h_sid h = sid))) (t_holds t) |> in
